@@ -52,6 +52,7 @@ type Server struct {
 	Log         []Resp
 	Dials       []string
 	Reqs        []ReqRec
+	Coords      []Brk // coordinators named in FindCoordinator answers, in order
 	conns       []svConn
 	nconn       map[string]int
 
@@ -124,6 +125,32 @@ func (s *Server) serve(addr, label string, sv net.Conn) {
 		}
 		mr, isMeta := r.Body.(*sarama.MetadataRequest)
 		s.mu.Lock()
+		if fc, isFC := r.Body.(*sarama.FindCoordinatorRequest); isFC {
+			// the coordinator of every group is the highest-numbered broker of the current snapshot; answered at once
+			// (coordinator lookups are not the subject of C15: they matter because the client REGISTERS the named broker)
+			if b := s.behav(addr); b == BDrop || b == BRefuse || b == BUnreach {
+				s.mu.Unlock()
+				sv.Close()
+				return
+			}
+			var co Brk
+			for _, b := range s.Cur.Brokers {
+				if b.ID >= co.ID {
+					co = b
+				}
+			}
+			s.Coords = append(s.Coords, co)
+			frame, err := sarama.VerifEncodeResponse(r.CorrelationID, &sarama.FindCoordinatorResponse{Version: fc.Version, Coordinator: sarama.VerifNewBroker(co.ID, co.Addr)})
+			if err != nil {
+				s.fail("clirig: cannot encode FindCoordinator response: " + err.Error())
+			}
+			s.mu.Unlock()
+			if _, err := sv.Write(frame); err != nil {
+				sv.Close()
+				return
+			}
+			continue
+		}
 		if !isMeta {
 			s.fail(fmt.Sprintf("clirig: unexpected request %T", r.Body))
 			s.mu.Unlock()
@@ -233,6 +260,13 @@ func (s *Server) AnswerPending(p *Pending) int {
 	sv := p.sv
 	go func() { _, _ = sv.Write(frame) }()
 	return k
+}
+
+// CoordsFrom returns the coordinators named since the n-th FindCoordinator answer.
+func (s *Server) CoordsFrom(n int) []Brk {
+	s.mu.Lock()
+	defer s.mu.Unlock()
+	return append([]Brk(nil), s.Coords[n:]...)
 }
 
 func (s *Server) Served() int {
